@@ -92,6 +92,12 @@ def gen_plan(wl, fr, idx):
     plan['fs_float'] = wl.random() < 0.2
     plan['from_thread'] = wl.random() < 0.15
     plan['precall3d'] = entry == 'function' and wl.random() < 0.2
+    if wl.random() < 0.2:
+        # an earlier attempt in the same process (on the same object) that FAILED - the same data with a
+        # progress-bar name the library rejects, or data with one flat signal - followed by the judged call
+        plan['prefail'] = {'kind': wl.choice(('bad_progress', 'bad_progress', 'flat')),
+                           'axis': wl.choice(('same', 'same', 0, 1, '01')), 'flat_at': [wl.randrange(5), wl.randrange(5)],
+                           'n_jobs': wl.choice((1, 2, 3))}
     plan['progress'] = wl.choice((None, None, 'tqdm'))
     plan['tqdm'] = wl.choice(('absent', 'stub'))
     plan['sim'] = gen_sim_cfg(fr, ntasks)
@@ -207,6 +213,22 @@ def execute(plan, tape):
                     res.stats['progress.' + m] += 1
                     res.stats['progress.' + akey] += 1
 
+    def failing_call(call):
+        """The earlier attempt that fails; nothing is demanded of it."""
+        pf = plan['prefail']
+        ax = axis if pf['axis'] == 'same' else ((0, 1) if pf['axis'] == '01' else pf['axis'])
+        data, progress = sigs, 'bar'
+        if pf['kind'] == 'flat':
+            data, progress = np.array(sigs), None
+            data[pf['flat_at'][0] % data.shape[0], pf['flat_at'][1] % data.shape[1]] = 0.0
+        try:
+            call(data, ax, pf['n_jobs'], progress)
+        except Exception:
+            res.stats['probe.earlier_attempt_failed'] += 1
+            res.stats['fault.earlier_attempt_failed'] += 1
+        else:
+            res.stats['earlier_attempt_did_not_fail'] += 1
+
     # ---- system under simulation -----------------------------------------------------
     sim = Sim(plan['sim'], tape)
     tq = ref.TqdmStub()
@@ -223,6 +245,9 @@ def execute(plan, tape):
                             compute_features_3d(-sigs[::-1, ::-1] * 0.5, fs, f_range, None, axis, True, 1, None)
                         except Exception:
                             pass        # nothing is demanded of the earlier call
+                    if plan.get('prefail'):
+                        failing_call(lambda data, ax, nj, pg: compute_features_3d(
+                            data, fs, f_range, None, ax, plan['return_samples'], nj, pg))
                     if plan.get('positional'):
                         out = compute_features_3d(sigs, fs, f_range, live_options(plan), axis,
                                                   plan['return_samples'], plan['n_jobs'], plan['progress'])
@@ -241,6 +266,9 @@ def execute(plan, tape):
                         # the object was used before: an earlier fit on other data of the same shape
                         bg.fit(-sigs[::-1, ::-1] * 0.5, fs, f_range, axis=plan['prefit_axis'] if plan['prefit_axis'] != '01' else (0, 1),
                                n_jobs=1, progress=None)
+                    if plan.get('prefail'):
+                        failing_call(lambda data, ax, nj, pg: bg.fit(data, fs, f_range, axis=ax, n_jobs=nj,
+                                                                     progress=pg))
                     if plan.get('positional'):
                         bg.fit(sigs, fs, f_range, axis, plan['n_jobs'], plan['progress'])
                     else:
@@ -449,7 +477,7 @@ def shrink(plan):
     for key, val in (('n_jobs', 1), ('n_jobs', 2), ('progress', None), ('tqdm', 'absent'),
                      ('return_samples', True), ('prefit', False), ('alias_equal', False),
                      ('array_variant', None), ('positional', False), ('f_range_list', False),
-                     ('fs_float', False), ('from_thread', False), ('precall3d', False)):
+                     ('fs_float', False), ('from_thread', False), ('precall3d', False), ('prefail', None)):
         if key in plan and plan[key] != val:
             p = copy.deepcopy(plan)
             p[key] = val
